@@ -1410,4 +1410,450 @@ theorem minv_run (mc : MonCfg) (w0 : World) (steps : List MStep) : MInv mc (runM
     | obj op => exact minv_objStep mc s.w s.m op h
     | ns n lbl => exact minv_nsStep mc s.started s.w s.m n lbl h
 
+/-! ### a started monitor equals the matching objects (no cluster step between Add and Start) -/
+
+def nsok (ns : Option Nat) (o : Obj) : Bool := match ns with | none => true | some n => o.key.ns == n
+def nmok (nm : Option Nat) (o : Obj) : Bool := match nm with | none => true | some n => o.key.name == n
+def nameOK (mc : MonCfg) (o : Obj) : Bool := mc.names.isEmpty || mc.names.contains o.key.name
+
+theorem pred_eq (mc : MonCfg) (ns nm : Option Nat) (o : Obj) :
+    mc.pred ns nm o = (mc.pred none none o && nsok ns o && nmok nm o) := by
+  unfold MonCfg.pred nsok nmok
+  cases ns <;> cases nm <;> simp only [Bool.and_true] <;> ac_rfl
+
+theorem dedupNames_isEmpty (l : List Nat) : (dedupNames l).isEmpty = l.isEmpty := by
+  cases l <;> simp [dedupNames]
+
+/-- the informers built for one namespace together see exactly the objects of that namespace
+that pass the name selector -/
+theorem createForNs_covers (mc : MonCfg) (list : Option Nat → Option Nat → List Obj) (ns : Option Nat) (o : Obj) :
+    (∃ i ∈ createForNs mc.cfg mc.namesEff list ns, mc.pred i.ns i.name o = true) ↔
+      (mc.pred ns none o = true ∧ nameOK mc o = true) := by
+  unfold createForNs MonCfg.namesEff nameOK
+  rw [dedupNames_isEmpty]
+  by_cases he : mc.names.isEmpty = true
+  · simp [he]
+  · simp only [he, Bool.false_eq_true, if_false, Bool.false_or, List.mem_map]
+    constructor
+    · rintro ⟨i, ⟨nm, ⟨n, hn, rfl⟩, rfl⟩, hp⟩
+      simp only at hp
+      rw [pred_eq] at hp ⊢
+      simp only [Bool.and_eq_true, nmok, beq_iff_eq] at hp ⊢
+      refine ⟨⟨⟨hp.1.1, hp.1.2⟩, trivial⟩, ?_⟩
+      rw [List.contains_iff_mem, hp.2]
+      exact (mem_dedupNames _ _).1 hn
+    · rintro ⟨hp, hn⟩
+      rw [List.contains_iff_mem] at hn
+      refine ⟨_, ⟨some o.key.name, ⟨o.key.name, (mem_dedupNames _ _).2 hn, rfl⟩, rfl⟩, ?_⟩
+      simp only
+      rw [pred_eq] at hp ⊢
+      simp only [Bool.and_eq_true, nmok, beq_iff_eq] at hp ⊢
+      exact ⟨⟨hp.1.1, hp.1.2⟩, trivial⟩
+
+theorem covers_map (mc : MonCfg) (l : List Informer) (f : Informer → Informer)
+    (hf : ∀ i, (f i).ns = i.ns ∧ (f i).name = i.name) (o : Obj) :
+    (∃ i ∈ l.map f, mc.pred i.ns i.name o = true) ↔ (∃ i ∈ l, mc.pred i.ns i.name o = true) := by
+  constructor
+  · rintro ⟨i, hi, hp⟩
+    obtain ⟨j, hj, rfl⟩ := List.mem_map.1 hi
+    rw [(hf j).1, (hf j).2] at hp
+    exact ⟨j, hj, hp⟩
+  · rintro ⟨i, hi, hp⟩
+    exact ⟨f i, List.mem_map.2 ⟨i, hi, rfl⟩, by rw [(hf i).1, (hf i).2]; exact hp⟩
+
+/-- replaying `Added` for the matching objects of the same cluster changes nothing -/
+theorem tracks_replay (cfg : Cfg) (p : Obj → Bool) (objs : Cluster) (c : Cache)
+    (hn : KeysNodup Obj.key objs) (h : Tracks cfg c (matching p objs)) :
+    Tracks cfg (((objs.filter p).map (fun o => (EvType.added, o))).foldl
+      (fun c ev => (handleWatch cfg c ev.1 ev.2).1) c) (matching p objs) := by
+  refine (tracks_foldl_watch cfg _ _ _ h).congr (fun k => ?_)
+  rw [foldl_adds, find?_reverse_of_nodup Obj.key _ (keysNodup_filter _ _ _ hn)]
+  have := kget_filter Obj.key p objs k hn
+  unfold kget at this
+  rw [this]
+  show (match matching p objs k with | some o => some o | none => matching p objs k) = _
+  cases matching p objs k <;> rfl
+
+theorem tracks_created (mc : MonCfg) (w : World) (hn : KeysNodup Obj.key w.objs) (ns : Option Nat) :
+    ∀ i ∈ createForNs mc.cfg mc.namesEff (mc.list w) ns,
+      Tracks mc.cfg i.cache (matching (mc.pred i.ns i.name) w.objs) := by
+  intro i hi
+  unfold createForNs at hi
+  obtain ⟨nm, _, rfl⟩ := List.mem_map.1 hi
+  exact (tracks_loadExisted mc.cfg _).congr (specInit_filter _ w.objs hn)
+
+/-- A started monitor in step with the cluster: every informer is started and its cache is the
+cluster's matching objects for its own scope; the scopes of the informers cover what they should. -/
+structure MSync (mc : MonCfg) (w : World) (m : Monitor) : Prop where
+  objsNodup : KeysNodup Obj.key w.objs
+  synced : ∀ i ∈ m.informers, i.started = true ∧ Tracks mc.cfg i.cache (matching (mc.pred i.ns i.name) w.objs)
+  vcover : ∀ p ∈ m.varying, ∀ o, (∃ i ∈ p.2, mc.pred i.ns i.name o = true) ↔
+    (mc.pred (some p.1) none o = true ∧ nameOK mc o = true)
+  scover : ∀ o, (∃ i ∈ m.static, mc.pred i.ns i.name o = true) ↔
+    ((∃ ns ∈ mc.namespaces, mc.pred ns none o = true) ∧ nameOK mc o = true)
+  staticNsNil : mc.nsSel = true → m.staticNs = []
+
+def vkeys (m : Monitor) : List Nat := m.varying.map (·.1)
+
+theorem vkeys_nsAdded (mc : MonCfg) (w : World) (m : Monitor) (n n' : Nat) (hs : m.staticNs = []) :
+    n' ∈ vkeys (nsAdded mc.cfg mc.namesEff (mc.list w) m n) ↔ n' ∈ vkeys m ∨ n' = n := by
+  unfold nsAdded
+  simp only [hs, List.contains_nil, Bool.false_eq_true, if_false]
+  split
+  · rename_i hf
+    rw [List.find?_isSome] at hf
+    obtain ⟨p, hp, hpn⟩ := hf
+    have hn : n ∈ vkeys m := List.mem_map.2 ⟨p, hp, by simpa using hpn⟩
+    constructor
+    · exact Or.inl
+    · rintro (h | rfl)
+      · exact h
+      · exact hn
+  · simp [vkeys]
+
+theorem vkeys_nsDeleted (m : Monitor) (n n' : Nat) (hs : m.staticNs = []) :
+    n' ∈ vkeys (nsDeleted m n) ↔ n' ∈ vkeys m ∧ n' ≠ n := by
+  unfold nsDeleted vkeys
+  simp only [hs, List.contains_nil, Bool.false_eq_true, if_false, List.mem_map, List.mem_filter, bne_iff_ne, ne_eq]
+  constructor
+  · rintro ⟨p, ⟨hp, hne⟩, rfl⟩; exact ⟨⟨p, hp, rfl⟩, hne⟩
+  · rintro ⟨⟨p, hp, rfl⟩, hne⟩; exact ⟨p, ⟨hp, hne⟩, rfl⟩
+
+theorem msync_nsAdded (mc : MonCfg) (w : World) (m : Monitor) (n : Nat) (h : MSync mc w m) :
+    MSync mc w (nsAdded mc.cfg mc.namesEff (mc.list w) m n) := by
+  unfold nsAdded
+  split
+  · exact h
+  · split
+    · exact h
+    · have hf : ∀ i : Informer, ({ i with started := true } : Informer).ns = i.ns ∧
+          ({ i with started := true } : Informer).name = i.name := fun i => ⟨rfl, rfl⟩
+      exact
+      { objsNodup := h.objsNodup
+        synced := fun i hi => by
+          rw [mem_informers] at hi
+          rcases hi with hi | ⟨p, hp, hi⟩
+          · exact h.synced i ((mem_informers m i).2 (Or.inl hi))
+          · rcases List.mem_append.1 hp with hp | hp
+            · exact h.synced i ((mem_informers m i).2 (Or.inr ⟨p, hp, hi⟩))
+            · simp only [List.mem_singleton] at hp
+              subst hp
+              obtain ⟨j, hj, rfl⟩ := List.mem_map.1 hi
+              exact ⟨rfl, tracks_created mc w h.objsNodup (some n) j hj⟩
+        vcover := fun p hp o => by
+          rcases List.mem_append.1 hp with hp | hp
+          · exact h.vcover p hp o
+          · simp only [List.mem_singleton] at hp
+            subst hp
+            simp only
+            rw [covers_map mc _ _ hf o]
+            exact createForNs_covers mc _ (some n) o
+        scover := h.scover
+        staticNsNil := h.staticNsNil }
+
+theorem msync_nsDeleted (mc : MonCfg) (w : World) (m : Monitor) (n : Nat) (h : MSync mc w m) :
+    MSync mc w (nsDeleted m n) := by
+  unfold nsDeleted
+  split
+  · exact h
+  · exact
+    { objsNodup := h.objsNodup
+      synced := fun i hi => by
+        rw [mem_informers] at hi
+        rcases hi with hi | ⟨p, hp, hi⟩
+        · exact h.synced i ((mem_informers m i).2 (Or.inl hi))
+        · exact h.synced i ((mem_informers m i).2 (Or.inr ⟨p, (List.mem_filter.1 hp).1, hi⟩))
+      vcover := fun p hp o => h.vcover p (List.mem_filter.1 hp).1 o
+      scover := h.scover
+      staticNsNil := h.staticNsNil }
+
+theorem msync_foldl_nsAdded (mc : MonCfg) (w : World) (ns : List Nat) (m : Monitor) (h : MSync mc w m) :
+    MSync mc w (ns.foldl (nsAdded mc.cfg mc.namesEff (mc.list w)) m) := by
+  induction ns generalizing m with
+  | nil => exact h
+  | cons n t ih => exact ih _ (msync_nsAdded mc w m n h)
+
+theorem vkeys_foldl_nsAdded (mc : MonCfg) (w : World) (ns : List Nat) (m : Monitor) (n' : Nat)
+    (hs : m.staticNs = []) :
+    n' ∈ vkeys (ns.foldl (nsAdded mc.cfg mc.namesEff (mc.list w)) m) ↔ n' ∈ vkeys m ∨ n' ∈ ns := by
+  induction ns generalizing m with
+  | nil => simp
+  | cons n t ih =>
+    have hs' : (nsAdded mc.cfg mc.namesEff (mc.list w) m n).staticNs = [] := by
+      unfold nsAdded; split; exact hs; split; exact hs; exact hs
+    simp only [List.foldl_cons]
+    rw [ih _ hs', vkeys_nsAdded mc w m n n' hs, List.mem_cons]
+    constructor
+    · rintro ((h | h) | h)
+      · exact Or.inl h
+      · exact Or.inr (Or.inl h)
+      · exact Or.inr (Or.inr h)
+    · rintro (h | h | h)
+      · exact Or.inl (Or.inl h)
+      · exact Or.inl (Or.inr h)
+      · exact Or.inr h
+
+theorem nsMatches_iff (mc : MonCfg) (w : World) (n : Nat) (hs : mc.nsSel = true) :
+    nsMatches mc w n = true ↔ (n, 1) ∈ w.nss := by
+  unfold nsMatches
+  simp only [hs, Bool.true_and, List.any_eq_true, Bool.and_eq_true, beq_iff_eq]
+  constructor
+  · rintro ⟨p, hp, h1, h2⟩
+    have : p = (n, 1) := by cases p; simp_all
+    exact this ▸ hp
+  · intro h; exact ⟨(n, 1), h, rfl, rfl⟩
+
+theorem createInformers_staticNs (mc : MonCfg) (w : World) :
+    (createInformers mc w).staticNs = mc.namespaces.filterMap id := rfl
+
+theorem mem_existing (mc : MonCfg) (w : World) (n : Nat) (hs : mc.nsSel = true) :
+    n ∈ dedupNames ((w.nss.filter (fun p => p.2 == 1)).map (·.1)) ↔ nsMatches mc w n = true := by
+  rw [mem_dedupNames, nsMatches_iff mc w n hs]
+  simp only [List.mem_map, List.mem_filter, beq_iff_eq]
+  constructor
+  · rintro ⟨p, ⟨hp, h1⟩, rfl⟩
+    have : p = (p.1, 1) := by cases p; simp_all
+    exact this ▸ hp
+  · intro h; exact ⟨(n, 1), ⟨h, rfl⟩, rfl⟩
+
+theorem started_feed (mc : MonCfg) (evsOf : Informer → List WatchEv) (i : Informer) :
+    (feed mc evsOf i).started = i.started := by
+  unfold feed; split <;> rfl
+
+/-- the function `Start` applies to every informer -/
+def startOne (mc : MonCfg) (w : World) (i : Informer) : Informer :=
+  feed mc (fun i => (mc.list w i.ns i.name).map (fun o => (EvType.added, o))) { i with started := true }
+
+theorem startOne_scope (mc : MonCfg) (w : World) (i : Informer) :
+    (startOne mc w i).ns = i.ns ∧ (startOne mc w i).name = i.name := by
+  unfold startOne
+  exact ⟨(feed_ns mc _ _).1, (feed_ns mc _ _).2⟩
+
+theorem startOne_synced (mc : MonCfg) (w : World) (hn : KeysNodup Obj.key w.objs) (i : Informer)
+    (h : Tracks mc.cfg i.cache (matching (mc.pred i.ns i.name) w.objs)) :
+    (startOne mc w i).started = true ∧
+      Tracks mc.cfg (startOne mc w i).cache (matching (mc.pred (startOne mc w i).ns (startOne mc w i).name) w.objs) := by
+  rw [(startOne_scope mc w i).1, (startOne_scope mc w i).2]
+  unfold startOne
+  refine ⟨by rw [started_feed], ?_⟩
+  unfold feed
+  simp only [if_true]
+  exact tracks_replay mc.cfg (mc.pred i.ns i.name) w.objs i.cache hn h
+
+theorem msync_start (mc : MonCfg) (w : World) (hn : KeysNodup Obj.key w.objs) :
+    MSync mc w (startMonitor mc w (createInformers mc w)) ∧
+    (mc.nsSel = true → ∀ n, n ∈ vkeys (startMonitor mc w (createInformers mc w)) ↔ nsMatches mc w n = true) := by
+  have hnil : mc.nsSel = true → mc.namespaces = [] := fun hs => by simp [MonCfg.namespaces, hs]
+  -- the monitor after every informer has been started
+  have hA : MSync mc w ((createInformers mc w).mapInformers (startOne mc w)) :=
+    { objsNodup := hn
+      synced := fun i hi => by
+        rw [mapInformers_informers] at hi
+        obtain ⟨j, hj, rfl⟩ := List.mem_map.1 hi
+        apply startOne_synced mc w hn j
+        rw [mem_informers] at hj
+        rcases hj with hj | ⟨p, hp, hj⟩
+        · rw [createInformers_static] at hj
+          obtain ⟨l, hl, hjl⟩ := List.mem_flatten.1 hj
+          obtain ⟨ns, _, rfl⟩ := List.mem_map.1 hl
+          exact tracks_created mc w hn ns j hjl
+        · rw [createInformers_varying] at hp
+          obtain ⟨n, _, rfl⟩ := List.mem_map.1 hp
+          exact tracks_created mc w hn (some n) j hj
+      vcover := fun p hp o => by
+        simp only [Monitor.mapInformers, List.mem_map] at hp
+        obtain ⟨q, hq, rfl⟩ := hp
+        rw [createInformers_varying] at hq
+        obtain ⟨n, _, rfl⟩ := List.mem_map.1 hq
+        simp only
+        rw [covers_map mc _ _ (startOne_scope mc w) o]
+        exact createForNs_covers mc _ (some n) o
+      scover := fun o => by
+        show (∃ i ∈ (createInformers mc w).static.map (startOne mc w), _) ↔ _
+        rw [covers_map mc _ _ (startOne_scope mc w) o, createInformers_static]
+        constructor
+        · rintro ⟨i, hi, hp⟩
+          obtain ⟨l, hl, hil⟩ := List.mem_flatten.1 hi
+          obtain ⟨ns, hns, rfl⟩ := List.mem_map.1 hl
+          have := (createForNs_covers mc (mc.list w) ns o).1 ⟨i, hil, hp⟩
+          exact ⟨⟨ns, hns, this.1⟩, this.2⟩
+        · rintro ⟨⟨ns, hns, hp⟩, hok⟩
+          obtain ⟨i, hi, hpi⟩ := (createForNs_covers mc (mc.list w) ns o).2 ⟨hp, hok⟩
+          exact ⟨i, List.mem_flatten.2 ⟨_, List.mem_map.2 ⟨ns, hns, rfl⟩, hi⟩, hpi⟩
+      staticNsNil := fun hs => by
+        show (createInformers mc w).staticNs = []
+        rw [createInformers_staticNs, hnil hs]; rfl }
+  unfold startMonitor
+  refine ⟨msync_foldl_nsAdded mc w _ _ hA, fun hs n => ?_⟩
+  have hsn : ((createInformers mc w).mapInformers (startOne mc w)).staticNs = [] := hA.staticNsNil hs
+  show n ∈ vkeys (List.foldl _ ((createInformers mc w).mapInformers (startOne mc w)) _) ↔ _
+  rw [vkeys_foldl_nsAdded mc w _ _ n hsn]
+  simp only [hs, if_true]
+  have hv : n ∈ vkeys ((createInformers mc w).mapInformers (startOne mc w)) ↔
+      n ∈ dedupNames ((w.nss.filter (fun p => p.2 == 1)).map (·.1)) := by
+    unfold vkeys
+    constructor
+    · intro h
+      obtain ⟨p, hp, rfl⟩ := List.mem_map.1 h
+      simp only [Monitor.mapInformers, List.mem_map] at hp
+      obtain ⟨q, hq, rfl⟩ := hp
+      rw [createInformers_varying] at hq
+      obtain ⟨k, hk, rfl⟩ := List.mem_map.1 hq
+      simp only [hs, if_true] at hk
+      exact (List.mem_filter.1 hk).1
+    · intro h
+      refine List.mem_map.2 ⟨(n, (createForNs mc.cfg mc.namesEff (mc.list w) (some n)).map (startOne mc w)), ?_, rfl⟩
+      simp only [Monitor.mapInformers, List.mem_map]
+      refine ⟨(n, createForNs mc.cfg mc.namesEff (mc.list w) (some n)), ?_, rfl⟩
+      rw [createInformers_varying]
+      refine List.mem_map.2 ⟨n, ?_, rfl⟩
+      simp only [hs, if_true]
+      exact List.mem_filter.2 ⟨h, by simp [hnil hs]⟩
+  rw [hv, mem_existing mc w n hs]
+  simp
+
+theorem msync_mapInformers (mc : MonCfg) (w w' : World) (m : Monitor) (f : Informer → Informer)
+    (hf : ∀ i, (f i).ns = i.ns ∧ (f i).name = i.name)
+    (hn : KeysNodup Obj.key w'.objs)
+    (hsy : ∀ i, (i.started = true ∧ Tracks mc.cfg i.cache (matching (mc.pred i.ns i.name) w.objs)) →
+      ((f i).started = true ∧ Tracks mc.cfg (f i).cache (matching (mc.pred (f i).ns (f i).name) w'.objs)))
+    (h : MSync mc w m) : MSync mc w' (m.mapInformers f) :=
+  { objsNodup := hn
+    synced := fun i hi => by
+      rw [mapInformers_informers] at hi
+      obtain ⟨j, hj, rfl⟩ := List.mem_map.1 hi
+      exact hsy j (h.synced j hj)
+    vcover := fun p hp o => by
+      simp only [Monitor.mapInformers, List.mem_map] at hp
+      obtain ⟨q, hq, rfl⟩ := hp
+      simp only
+      rw [covers_map mc _ _ hf o]
+      exact h.vcover q hq o
+    scover := fun o => by
+      show (∃ i ∈ m.static.map f, _) ↔ _
+      rw [covers_map mc _ _ hf o]
+      exact h.scover o
+    staticNsNil := h.staticNsNil }
+
+theorem vkeys_mapInformers (m : Monitor) (f : Informer → Informer) : vkeys (m.mapInformers f) = vkeys m := by
+  simp [vkeys, Monitor.mapInformers, List.map_map, Function.comp]
+
+/-- the state invariant of a started monitor -/
+def MS (mc : MonCfg) (s : MState) : Prop :=
+  s.started = true ∧ MSync mc s.w s.m ∧
+    (mc.nsSel = true → ∀ n, n ∈ vkeys s.m ↔ nsMatches mc s.w n = true)
+
+theorem ms_start_again (mc : MonCfg) (s : MState) (h : MS mc s) : MS mc (mstep mc s .start) := by
+  obtain ⟨_, hm, hv⟩ := h
+  have hA : MSync mc s.w (s.m.mapInformers (startOne mc s.w)) :=
+    msync_mapInformers mc s.w s.w s.m _ (startOne_scope mc s.w) hm.objsNodup
+      (fun i hi => startOne_synced mc s.w hm.objsNodup i hi.2) hm
+  refine ⟨rfl, ?_, fun hs n => ?_⟩
+  · exact msync_foldl_nsAdded mc s.w _ _ hA
+  · show n ∈ vkeys (List.foldl _ (s.m.mapInformers (startOne mc s.w)) _) ↔ _
+    rw [vkeys_foldl_nsAdded mc s.w _ _ n (hA.staticNsNil hs), vkeys_mapInformers]
+    simp only [hs, if_true]
+    rw [mem_existing mc s.w n hs, hv hs n]
+    show _ ↔ nsMatches mc s.w n = true
+    simp
+
+theorem ms_obj (mc : MonCfg) (s : MState) (op : COp) (h : MS mc s) : MS mc (mstep mc s (.obj op)) := by
+  obtain ⟨hst, hm, hv⟩ := h
+  refine ⟨hst, ?_, fun hs n => ?_⟩
+  · show MSync mc { s.w with objs := applyOp s.w.objs op } (s.m.mapInformers _)
+    refine msync_mapInformers mc s.w _ s.m _ (fun i => feed_ns mc _ _)
+      (keysNodup_applyOp _ op hm.objsNodup) (fun i hi => ?_) hm
+    rw [(feed_ns mc _ i).1, (feed_ns mc _ i).2]
+    refine ⟨by rw [started_feed]; exact hi.1, ?_⟩
+    unfold feed
+    simp only [hi.1, if_true]
+    have := tracks_foldl_watch mc.cfg (watchOf (mc.pred i.ns i.name) s.w.objs op) _ _ hi.2
+    exact this.congr (watchOf_spec _ _ _)
+  · show n ∈ vkeys (s.m.mapInformers _) ↔ nsMatches mc { s.w with objs := applyOp s.w.objs op } n = true
+    rw [vkeys_mapInformers]
+    exact hv hs n
+
+theorem msync_world (mc : MonCfg) (w w' : World) (m : Monitor) (ho : w'.objs = w.objs) (h : MSync mc w m) :
+    MSync mc w' m :=
+  { objsNodup := ho ▸ h.objsNodup
+    synced := fun i hi => by rw [ho]; exact h.synced i hi
+    vcover := h.vcover
+    scover := h.scover
+    staticNsNil := h.staticNsNil }
+
+theorem ms_ns (mc : MonCfg) (s : MState) (n : Nat) (lbl : Option Nat) (h : MS mc s) :
+    MS mc (mstep mc s (.ns n lbl)) := by
+  obtain ⟨hst, hm, hv⟩ := h
+  -- the new world
+  let nss' : List (Nat × Nat) := match lbl with
+    | some l => (s.w.nss.filter (·.1 != n)) ++ [(n, l)]
+    | none => s.w.nss.filter (·.1 != n)
+  let w' : World := { s.w with nss := nss' }
+  have hw : (nsStep mc s.started s.w s.m n lbl).1 = w' := rfl
+  have hm' : MSync mc w' s.m := msync_world mc s.w w' s.m rfl hm
+  cases hsel : mc.nsSel with
+  | false =>
+    have hmm : (nsStep mc s.started s.w s.m n lbl).2 = s.m := by
+      unfold nsStep; simp [hsel]
+    refine ⟨hst, ?_, fun hs => by rw [hsel] at hs; cases hs⟩
+    show MSync mc (nsStep mc s.started s.w s.m n lbl).1 (nsStep mc s.started s.w s.m n lbl).2
+    rw [hw, hmm]; exact hm'
+  | true =>
+    have hsn := hm.staticNsNil hsel
+    have hother : ∀ n', n' ≠ n → (nsMatches mc w' n' = true ↔ nsMatches mc s.w n' = true) := by
+      intro n' hne
+      rw [nsMatches_iff mc w' n' hsel, nsMatches_iff mc s.w n' hsel]
+      show (n', 1) ∈ nss' ↔ _
+      cases lbl with
+      | none => simp [nss', hne]
+      | some l => simp [nss', hne]
+    have hmm : (nsStep mc s.started s.w s.m n lbl).2 =
+        (if (!nsMatches mc s.w n && nsMatches mc w' n) = true then nsAdded mc.cfg mc.namesEff (mc.list w') s.m n
+         else if (nsMatches mc s.w n && !nsMatches mc w' n) = true then nsDeleted s.m n else s.m) := by
+      have hc : (!s.started || !mc.nsSel) = false := by simp [hsel, hst]
+      unfold nsStep
+      simp only [hc, Bool.false_eq_true, if_false]
+      rfl
+    refine ⟨hst, ?_, fun _ n' => ?_⟩
+    · show MSync mc (nsStep mc s.started s.w s.m n lbl).1 (nsStep mc s.started s.w s.m n lbl).2
+      rw [hw, hmm]
+      split
+      · exact msync_nsAdded mc w' s.m n hm'
+      · split
+        · exact msync_nsDeleted mc w' s.m n hm'
+        · exact hm'
+    · show n' ∈ vkeys (nsStep mc s.started s.w s.m n lbl).2 ↔ nsMatches mc (nsStep mc s.started s.w s.m n lbl).1 n' = true
+      rw [hw, hmm]
+      by_cases hne : n' = n
+      · subst hne
+        have hold := hv hsel n'
+        cases hwas : nsMatches mc s.w n' <;> cases hnow : nsMatches mc w' n'
+        · simp [hwas, hnow] at hold ⊢; exact hold
+        · simp [hwas, hnow, vkeys_nsAdded mc w' s.m n' n' hsn]
+        · simp [hwas, hnow, vkeys_nsDeleted s.m n' n' hsn]
+        · simp [hwas, hnow] at hold ⊢; exact hold
+      · rw [hother n' hne, ← hv hsel n']
+        split
+        · rw [vkeys_nsAdded mc w' s.m n n' hsn]; simp [hne]
+        · split
+          · rw [vkeys_nsDeleted s.m n n' hsn]; simp [hne]
+          · exact Iff.rfl
+
+theorem ms_run (mc : MonCfg) (w0 : World) (hw0 : KeysNodup Obj.key w0.objs) (rest : List MStep) :
+    MS mc (runMonitor mc w0 (.start :: rest)) := by
+  unfold runMonitor
+  simp only [List.foldl_cons]
+  have h0 : MS mc (mstep mc { w := w0, m := createInformers mc w0 } .start) :=
+    ⟨rfl, (msync_start mc w0 hw0).1, (msync_start mc w0 hw0).2⟩
+  generalize mstep mc { w := w0, m := createInformers mc w0 } .start = s at h0
+  induction rest generalizing s with
+  | nil => exact h0
+  | cons st t ih =>
+    simp only [List.foldl_cons]
+    apply ih
+    cases st with
+    | start => exact ms_start_again mc s h0
+    | obj op => exact ms_obj mc s op h0
+    | ns n lbl => exact ms_ns mc s n lbl h0
+
 end ShellOp.Snapshot
